@@ -172,8 +172,8 @@ def run(chk):
                 v -= 1 << 64
             return {"script": REPLAY, "input": {"src": src, "dst": dst, "v": v}}
         return f
-    chk.prove_paths("nat.__int__:value-preserved-when-representable(v<2^63)", conv("nat", "__int__"),
-                    lambda p: z3.BoolVal(False) if p.kind != "return" else z3.And(z3.BoolVal(p.value.ty == "int"), z3.Implies(x >= 0, z3.BV2Int(terms(p.value), True) == z3.BV2Int(x, False))),
+    chk.prove_paths("nat.__int__:total(no panic for any nat)/\\same-bit-pattern(value preserved below 2^63, reduced modulo 2^64 above)", conv("nat", "__int__"),
+                    lambda p: z3.BoolVal(False) if p.kind != "return" else z3.And(z3.BoolVal(p.value.ty == "int"), terms(p.value) == x, z3.Implies(x >= 0, z3.BV2Int(terms(p.value), True) == z3.BV2Int(x, False))),
                     func=f"{NUM}:nat.__int__", replay=rp("nat", "int"))
     chk.prove_paths("nat.__float__:==round-to-nearest(unsigned value)", conv("nat", "__float__"),
                     lambda p: z3.BoolVal(False) if p.kind != "return" else terms(p.value) == z3.fpUnsignedToFP(G.RNE, x, G.FP),
